@@ -24,8 +24,9 @@ tape of `W` has that very frame, type and payload, at that very location.
   carrying the damaged stream: `recover` SUCCEEDS on `W'`, and for some journal index `a` (the entry
   the frame belongs to; none if it is a tail frame of an entry cut by a file deletion) every record
   of every live queue that was not appended by `J[a]` is in the recovered log with the same
-  position and payload. Proved for tapes with at least 7 free bytes at the end (`7 ≤ z`); the
-  journal may come from a history with restarts (`Img.reachD_run`).
+  position and payload. Proved here for tapes with at least 7 free bytes at the end (`7 ≤ z`);
+  `C09_recover_one_frame_all` (MRL/Props/C09Close.lean) removes that restriction. The journal may
+  come from a history with restarts (`Img.reachD_run`).
 
 Proof machinery: MRL/Proofs/Img*.lean on top of Gen*/Torn*/Drop* (single stream, journal) and the
 disk layer (G*).
